@@ -687,6 +687,7 @@ def proof_info(ctx):
 from ..selftest import V  # noqa: E402
 
 SELFTEST = [
+    V("array handed out by the per-band weight cache updated in place (seeded C14-m5)", TET, '                (ib1, ib2): sum(self.__weight_1b(ief, ik, ib, der) for ib in range(ib1, ib2)) / (ib2 - ib1) * weight_select_bands(ib1, ib2, select_bands)\n                for ib1, ib2 in bands_in_range\n            }\n', '                (ib1, ib2): sum(self.__weight_1b(ief, ik, ib, der) for ib in range(ib1, ib2)) / (ib2 - ib1) * weight_select_bands(ib1, ib2, select_bands)\n                for ib1, ib2 in bands_in_range\n            }\n            for ib1, ib2 in bands_in_range:\n                w0 = self.__weight_1b(ief, ik, ib1, der)\n                w0 *= 1.0\n', "fire", "R14.8"),
     V("in-range test strict at the lower edge (seeded C14-m4)", TET, "Ebandmax[ib1:ib2].max() >= emin", "Ebandmax[ib1:ib2].max() > emin", "fire", "R14.8"),
     V("below-range test made inclusive while the in-range test stays inclusive", TET, "    add = np.where((Ebandmax < emin))[0]\n", "    add = np.where((Ebandmax <= emin))[0]\n", "fire", "R14.8"),
     V("anti-sea rule bypassed for the parallelepiped class (seeded C14-m3)", TET, "            self.weights[ief][der][ik][ib] = self.weight_1k1b(ief, ik, ib, der)\n",
